@@ -329,10 +329,20 @@ func c10Cycle(c *caseCtx) (res caseResult) {
 			res.violate("round %d: GetPID = nil while the actor is registered and no stop has been requested", round)
 		}
 		var done <-chan struct{}
-		if r.Intn(2) == 0 {
+		switch r.Intn(3) {
+		case 0:
 			done = e.Poison(pid).Done()
-		} else {
+		case 1:
 			done = e.Stop(pid).Done()
+		default:
+			// two stop requests in a row (the actor is busy: both pills end up in its inbox); the caller
+			// acts on the second one's context
+			e.Poison(pid)
+			if r.Intn(2) == 0 {
+				done = e.Poison(pid).Done()
+			} else {
+				done = e.Stop(pid).Done()
+			}
 		}
 		select {
 		case <-done:
